@@ -3263,6 +3263,15 @@ def unpickle_setwrapper(obj, attrname, items):
     wrapper = wrapper_cls(obj, attr)
     setdata = obj._vals_.get(attr)
     if setdata is None: setdata = obj._vals_[attr] = SetData()
+    reverse = attr.reverse
+    if reverse.is_collection and not setdata.is_fully_loaded:
+        # items of one-to-many collection were linked with obj during its unpickling,
+        # items of many-to-many collection should be added explicitly
+        items = set(items)
+        items -= setdata
+        if setdata.removed: items -= setdata.removed
+        setdata |= items
+        reverse.db_reverse_add(items, obj)
     setdata.is_fully_loaded = True
     setdata.absent = None
     setdata.count = len(setdata)
